@@ -5,7 +5,7 @@
    round trip.  The correspondence run ties both to the interpreter built from
    /repo on generated Go values of every kind and width. *)
 From Coq Require Import ZArith List Bool.
-From Otto Require Import Common.Double C15.Model C15.Spec C15.Proofs.
+From Otto Require Import Common.Double C15.Model C15.Spec C15.Proofs C15.ModelExport C15.ProofsExport C15.Corr C15.ProofsCorr.
 Import ListNotations.
 Open Scope Z_scope.
 
@@ -36,6 +36,13 @@ Theorem C15_tointeger_int32 : forall sn refl n, in_range KInt32 n ->
 Proof. exact to_integer_int32. Qed.
 Print Assumptions C15_tointeger_int32.
 
+(* from 2^63 up every uint/uint64 reads as MaxInt64: the saturated value the int64 API requires *)
+Theorem C15_tointeger_saturates : forall sn refl k n, k = KUint \/ k = KUint64 ->
+  in_range k n -> 2 ^ 63 <= n ->
+  to_integer sn (toValue refl (GInt k n)) = Ok max64 /\ spec_to_integer sn (GInt k n) = max64.
+Proof. exact to_integer_saturates. Qed.
+Print Assumptions C15_tointeger_saturates.
+
 (* ToFloat is the counterpart Number for every scalar *)
 Theorem C15_tofloat_counterpart : forall sn g,
   to_float sn (toValue false g) = Ok (spec_to_float sn g) /\
@@ -60,6 +67,52 @@ Theorem C15_predicates_agree : forall refl g,
   is_string v = (spec_typeof g =? 4).
 Proof. exact predicates_agree. Qed.
 Print Assumptions C15_predicates_agree.
+
+(* ---------- Export of script data ---------- *)
+(* the typed-slice rule, as implemented by the loop of Value.export: the result is []T for a concrete
+   T exactly when the array is not empty, T is not the nil type, and EVERY element exports to T *)
+Theorem C15_export_typed_slice_rule : forall l T, T <> TIface ->
+  (finish l = Ok (XSlice T l) <-> l <> [] /\ T <> TNil /\ Forall (fun y => type_of y = T) l).
+Proof. exact finish_typed_iff. Qed.
+Print Assumptions C15_export_typed_slice_rule.
+
+(* whenever Export returns, it returns what the rule prescribes ([]T iff all same type, else []interface{}) *)
+Theorem C15_export_follows_rule : forall l r, finish l = Ok r -> r = finish_spec l.
+Proof. exact finish_agrees_spec. Qed.
+Print Assumptions C15_export_follows_rule.
+
+(* it fails to return only on two elements with equal kind triples and different types ... *)
+Theorem C15_export_panic_only : forall l, finish l = Panic ->
+  exists a b, In a l /\ In b l /\ triple_of (type_of a) = triple_of (type_of b) /\ type_of a <> type_of b.
+Proof. exact finish_panic_only. Qed.
+Print Assumptions C15_export_panic_only.
+
+(* ... which cannot happen when the elements are scalars, objects or arrays of scalars/objects *)
+Theorem C15_export_shallow_total : forall l,
+  Forall (fun y => shallow (type_of y) = true) l -> finish l = Ok (finish_spec l).
+Proof. exact finish_shallow_total. Qed.
+Print Assumptions C15_export_shallow_total.
+
+(* Export of JSON-like data is structurally equal to the data, to any depth *)
+Theorem C15_export_jsonlike : forall v r,
+  jsonlike v = true -> export_m v = Ok r -> proj_gv r = proj_jv v.
+Proof. exact export_jsonlike. Qed.
+Print Assumptions C15_export_jsonlike.
+
+(* ---------- bindings: a read sees the last write, whatever came before ---------- *)
+Theorem C15_read_after_write : forall st s v v' n g,
+  hrun st [HSet s v n g; HGet s v' n] = [cv_of g].
+Proof. exact read_after_write. Qed.
+Print Assumptions C15_read_after_write.
+
+Theorem C15_write_frames : forall st s n s' n' v v' g, (s, n) <> (s', n') ->
+  hrun st [HSet s' v n' g; HGet s v' n] = hrun st [HGet s v' n].
+Proof. exact write_frames. Qed.
+Print Assumptions C15_write_frames.
+
+Theorem C15_delete_then_read : forall st s v n, hrun st [HDel s n; HGet s v n] = [CVUndef].
+Proof. exact delete_then_read. Qed.
+Print Assumptions C15_delete_then_read.
 
 (* ---------- otto's deviations, refuted with witnesses ---------- *)
 (* uint64 goes through float64(): 2^53+1 comes back as 2^53 *)
@@ -113,7 +166,29 @@ Proof.
 Qed.
 Print Assumptions C15_wide_int_text_refuted.
 
+(* [[[1]],[[1.5]]]: Export panics *)
+Theorem C15_export_nested_panic_refuted : exists v, export_m v = Panic /\ jsonlike v = true.
+Proof.
+  exists (JArr [Some (JArr [Some (JArr [Some (JNumI KInt64 1)])]);
+                Some (JArr [Some (JArr [Some (JNumF 0x3FF8000000000000)])])]).
+  split; vm_compute; reflexivity.
+Qed.
+Print Assumptions C15_export_nested_panic_refuted.
+
+(* [1,,2]: the hole is dropped *)
+Theorem C15_export_holes_refuted : exists v, export_m v <> Ok (export_s v).
+Proof. exists (JArr [Some (JNumI KInt64 1); None; Some (JNumI KInt64 2)]). vm_compute. discriminate. Qed.
+Print Assumptions C15_export_holes_refuted.
+
 (* non-vacuity *)
+Example C15_typed_rule_met :
+  finish [XInt KInt64 1; XInt KInt64 2] = Ok (XSlice (TInt KInt64) [XInt KInt64 1; XInt KInt64 2]) /\
+  finish [XInt KInt64 1; XF64 0] = Ok (XSlice TIface [XInt KInt64 1; XF64 0]).
+Proof. split; vm_compute; reflexivity. Qed.
+Example C15_jsonlike_met :
+  let v := JObj [([97], JArr [Some (JNumI KInt64 1); Some (JStr [120])])] in
+  jsonlike v = true /\ exists r, export_m v = Ok r.
+Proof. split; [vm_compute; reflexivity | eexists; vm_compute; reflexivity]. Qed.
 Example C15_wf_met : wf (GInt KUint8 200) /\ export (toValue true (GInt KUint8 200)) = GInt KUint8 200.
 Proof. vm_compute. split; [split; discriminate | reflexivity]. Qed.
 Example C15_tointeger_hyp_met : in_range KUint64 (2 ^ 53) /\ Z.abs (2 ^ 53) <= 2 ^ 53 /\
